@@ -37,9 +37,11 @@ static list_iterator_t it;
 static vh_sb_t trace;
 static bool failed;
 
+static int cmp_scale = 1;
 static int cmp_key(list_node_t *a, list_node_t *b)
 {
-	return containerof(a, node_t, link)->key - containerof(b, node_t, link)->key;
+	/* any negative / zero / positive value is a legal comparator result, not just -1/0/1 */
+	return (containerof(a, node_t, link)->key - containerof(b, node_t, link)->key) * cmp_scale;
 }
 
 static void reset_all(void)
@@ -489,6 +491,7 @@ static void random_case(long long c)
 	vh_case_key(key);
 	vh_case_replay("--extra rand --only-case %lld", c);
 	int nops = 10 + (int)vh_below(&r, 191);
+	cmp_scale = (int[]){ 1, 1, 7, 100000, 0x10000000 }[vh_below(&r, 5)];
 	/* bias: some cases keep lists short (boundary shapes), some fill up */
 	int bias = (int)vh_below(&r, 3);
 	for (int i = 0; i < nops && !failed; i++) {
